@@ -424,8 +424,107 @@ func runC03(c *core.Ctx) {
 	c.Obs("random_accepted", ra)
 	c.Obs("random_rejected", rr)
 
+	// ---- lists of several items: every item of the list is checked against its own link -------
+	c03ItemLists(c, vocab)
+
 	// ---- grammar: UnpackRule vs reference grammar -----------------------------
 	c03Grammar(c)
+}
+
+// c03ItemLists: VerifyArtifacts gets the steps (or the inspections) of a layout as ONE list. Lists of
+// 2-4 items over the small universe, each item with a link of its own and 0-2 rules per side from
+// the vocabulary; in half of the lists one chosen item has no rule at all (absent or empty lists -
+// a sublayout step, a "tag" step). The verdict on the whole list is compared with the reference.
+func c03ItemLists(c *core.Ctx, vocab [][]string) {
+	n := c.Pick(6000, 150000)
+	acc, rej, ruleLess := int64(0), int64(0), int64(0)
+	for i := 0; i < n; i++ {
+		if !c.Mine(i) {
+			continue
+		}
+		id := fmt.Sprintf("itemlist/%d", i)
+		if !c.Want(id) {
+			continue
+		}
+		r := c.Rand("c03items", i)
+		nItems := 2 + r.Intn(3)
+		inspections := r.Intn(2) == 0
+		bare := -1
+		if i%2 == 0 {
+			bare = r.Intn(nItems)
+		}
+		links := map[string]ref.LinkState{}
+		md := map[string]intoto.Metadata{}
+		for n, l := range c03Dst() {
+			links[n] = l
+			md[n] = toLinkMeta(n, l)
+		}
+		var items []ref.Item
+		var implItems []interface{}
+		for k := 0; k < nItems; k++ {
+			name := fmt.Sprintf("item%d", k)
+			ls := ref.LinkState{Materials: stateOf(r.Intn(81)), Products: stateOf(r.Intn(81))}
+			links[name] = ls
+			md[name] = toLinkMeta(name, ls)
+			var mats, prods [][]string
+			if k != bare {
+				for j, m := 0, r.Intn(3); j < m; j++ {
+					mats = append(mats, vocab[r.Intn(len(vocab))])
+				}
+				for j, m := 0, r.Intn(3); j < m; j++ {
+					prods = append(prods, vocab[r.Intn(len(vocab))])
+				}
+				if r.Intn(3) == 0 {
+					prods = append(prods, []string{"DISALLOW", "*"})
+				}
+				if r.Intn(40) == 0 {
+					mats = append(mats, []string{"PERMIT", "*"}) // a malformed rule fails the list wherever it stands
+				}
+			} else if r.Intn(2) == 0 {
+				mats, prods = [][]string{}, [][]string{}
+			}
+			items = append(items, ref.Item{Name: name, ExpectedMaterials: mats, ExpectedProducts: prods})
+			sci := intoto.SupplyChainItem{Name: name, ExpectedMaterials: mats, ExpectedProducts: prods}
+			if inspections {
+				implItems = append(implItems, intoto.Inspection{Type: "inspection", SupplyChainItem: sci})
+			} else {
+				implItems = append(implItems, intoto.Step{Type: "step", SupplyChainItem: sci})
+			}
+		}
+		refErr := ref.VerifyItems(items, links)
+		var implErr error
+		detail := map[string]any{"items": items, "items_are_inspections": inspections, "links": links, "item_without_rules": bare}
+		c.Begin(id)
+		panicked := c.Guard(id, "VerifyArtifacts", detail, func() { implErr = intoto.VerifyArtifacts(implItems, md) })
+		c.End(id)
+		c.Eval(1)
+		if panicked {
+			continue
+		}
+		c.Class("itemlist", fmt.Sprint(items), fmt.Sprint(links))
+		if bare >= 0 {
+			ruleLess++
+		}
+		if (implErr == nil) != (refErr == nil) {
+			sig := "verdict on a list of several items differs: implementation accepts, reference rejects"
+			if implErr != nil {
+				sig = "verdict on a list of several items differs: implementation rejects, reference accepts"
+			}
+			if bare >= 0 {
+				sig += fmt.Sprintf(" (item %d of %d has no rules)", bare+1, nItems)
+			}
+			detail["implementation_error"], detail["reference_error"] = errStr(implErr), errStr(refErr)
+			c.Violation(sig, id, detail)
+		}
+		if implErr == nil {
+			acc++
+		} else {
+			rej++
+		}
+	}
+	c.Obs("item_lists_accepted", acc)
+	c.Obs("item_lists_rejected", rej)
+	c.Obs("item_lists_with_a_rule_less_item", ruleLess)
 }
 
 func caseVariant(r *rand.Rand, s string) string {
@@ -609,7 +708,7 @@ func init() {
 	core.Register(&core.Property{
 		ID:    "C03",
 		Level: "exploration",
-		Rule: "exhaustive: universe paths {a, d/a, d/b, dx/a} x hashes {h1,h2}: all 6561 (materials,products) link states x rule lists over a 50-rule vocabulary (7 rule types, patterns * a d/* ? d/a, MATCH in all 4 forms with prefixes d, d/, e, e/d, both destination types, missing destination) of length<=1 completely and all 2-rule lists each on a seed-determined half of the link states (thorough); quick: all lists of length<=1 and a seeded 1% of the 2-rule lists, each on a seed-determined half of the link states, on the material and on the product side, plus every pair (one material rule, one product rule) of the vocabulary on both sides of the same item (thorough: all 2601 pairs, quick: 1/8 of them; a quarter of the link states each), for Step and Inspection items (thorough also: all 2744 lists of length 3 over a 14-rule sub-vocabulary on the 3-path sub-universe {a, d/a, dx/a}, 729 link states, alternating sides), each list also with a terminal probe DISALLOW <path> per universe path (queue observability); random: 8-path universe, 4 hash objects incl. other algorithm sets, lists of 1-11 rules with mixed-case keywords and occasional malformed rules, patterns with classes, negated classes, escapes and stars inside classes; grammar: all token lists of length<=4 over 8 tokens + every valid form with <=2 substitutions / 1 insertion / 1 deletion in random casing. " +
+		Rule: "exhaustive: universe paths {a, d/a, d/b, dx/a} x hashes {h1,h2}: all 6561 (materials,products) link states x rule lists over a 50-rule vocabulary (7 rule types, patterns * a d/* ? d/a, MATCH in all 4 forms with prefixes d, d/, e, e/d, both destination types, missing destination) of length<=1 completely and all 2-rule lists each on a seed-determined half of the link states (thorough); quick: all lists of length<=1 and a seeded 1% of the 2-rule lists, each on a seed-determined half of the link states, on the material and on the product side, plus every pair (one material rule, one product rule) of the vocabulary on both sides of the same item (thorough: all 2601 pairs, quick: 1/8 of them; a quarter of the link states each), for Step and Inspection items (thorough also: all 2744 lists of length 3 over a 14-rule sub-vocabulary on the 3-path sub-universe {a, d/a, dx/a}, 729 link states, alternating sides), each list also with a terminal probe DISALLOW <path> per universe path (queue observability); random: 8-path universe, 4 hash objects incl. other algorithm sets, lists of 1-11 rules with mixed-case keywords and occasional malformed rules, patterns with classes, negated classes, escapes and stars inside classes; item lists: 6000 (quick) / 150000 (thorough) lists of 2-4 Step or Inspection items, each with its own link and 0-2 vocabulary rules per side, half of the lists with one item that has no rules (absent or empty lists), whole-list verdict against the reference; grammar: all token lists of length<=4 over 8 tokens + every valid form with <=2 substitutions / 1 insertion / 1 deletion in random casing. " +
 			"Oracle = reference queue interpreter + reference grammar written from the spec text, using the reference glob (not the library's). non-trivial/distinct = enumerated cases are distinct by construction, random ones by hash of the whole case",
 		Assumptions: []string{
 			"only clean relative slash paths, clean patterns and prefixes (path.Clean(x)==x, prefixes also with one trailing slash) are generated: behaviour on unclean paths is not stated by the property and not judged",
